@@ -132,6 +132,15 @@ func main() {
 		for _, s := range listFuncs(p) {
 			fmt.Println(s)
 		}
+	case "fields":
+		p, err := loadProgram(LoadOpts{NoSSA: true})
+		if err != nil {
+			fmt.Println("ERR", err)
+			os.Exit(1)
+		}
+		for _, s := range listFields(p) {
+			fmt.Println(s)
+		}
 	case "params":
 		p, err := loadProgram(LoadOpts{NoSSA: true})
 		if err != nil {
